@@ -36,8 +36,8 @@ type c03 struct{}
 
 func init() { register(&c03{}) }
 
-func (*c03) ID() string                      { return "C03" }
-func (*c03) Level() string                   { return "exploration" }
+func (*c03) ID() string                     { return "C03" }
+func (*c03) Level() string                  { return "exploration" }
 func (*c03) Decode(raw []byte) (any, error) { return decodeInto[C03Scenario](raw) }
 
 var c03Classes = []string{"before-data", "content-first", "in-headers", "part-header", "in-body", "before-closing", "in-terminator", "after-terminator"}
